@@ -103,7 +103,7 @@ IMPORTS = ['Coq.Lists.List', 'Coq.Strings.String', 'Coq.NArith.NArith', 'Coq.ZAr
            'SV.Bin.LE', 'SV.Bin.Struct', 'SV.Bin.RLE', 'SV.Bin.FindInsert', 'SV.Fmt.BspFormatsSpec', 'SV.Fmt.BspDedup', 'SV.Gen.BspFormats_gen']
 IMPORTS_GLUE = ['Coq.Lists.List', 'Coq.Strings.String', 'Coq.NArith.NArith', 'Coq.ZArith.ZArith', 'Coq.Bool.Bool',
                 'SV.Bin.LE', 'SV.Bin.Struct', 'SV.Bin.RLE', 'SV.Fmt.BspFormatsSpec', 'SV.Fmt.BspVisRow', 'SV.Fmt.BspTexStrings',
-                'SV.Fmt.BspRecords', 'SV.Fmt.VmfText', 'SV.Fmt.BspEntLump', 'SV.Fmt.BspDedup', 'SV.Fmt.BspFlagSplit', 'SV.Fmt.BspOverlayRec', 'SV.Fmt.BspWorklist', 'SV.Fmt.BspPhys', 'SV.Bin.BspDeferred', 'SV.Fmt.BspSpriteDict', 'SV.Fmt.BspPropVersion', 'SV.Gen.BspFormats_gen', 'SV.Gen.BspGlue_gen']
+                'SV.Fmt.BspRecords', 'SV.Fmt.VmfText', 'SV.Fmt.BspEntLump', 'SV.Fmt.BspDedup', 'SV.Fmt.BspFlagSplit', 'SV.Fmt.BspOverlayRec', 'SV.Fmt.BspWorklist', 'SV.Fmt.BspPhys', 'SV.Bin.BspDeferred', 'SV.Fmt.BspSpriteDict', 'SV.Fmt.BspPropVersion', 'SV.Fmt.BspSaveCommit', 'SV.Gen.BspFormats_gen', 'SV.Gen.BspGlue_gen']
 PRE = '''Import ListNotations. Open Scope string_scope. Open Scope list_scope.
 Fixpoint nl_eqb (a b : list N) : bool := match a, b with [], [] => true | x :: a', y :: b' => N.eqb x y && nl_eqb a' b' | _, _ => false end.
 Fixpoint natl_eqb (a b : list nat) : bool := match a, b with [], [] => true | x :: a', y :: b' => Nat.eqb x y && natl_eqb a' b' | _, _ => false end.
@@ -1077,7 +1077,7 @@ def version_histories(ck: Ck, base: str, wd: str) -> None:
     import srctools.bsp as B
     hdrs = sorted({v.version for v in B.StaticPropVersion if v.name in U.PROP_VERSIONS})
     feats_pool = ['water', 'hdr', 'physics', 'outputs', 'fresh_objects', 'shared_objects', 'near_duplicates', 'grafted', 'hi_bytes']
-    rounds = ck.budget(1, 12)
+    rounds = ck.budget(1, 6)
     for rnd in range(rounds):
         for cfg in U.CONFIGS:
             for hdr in hdrs:
@@ -1122,6 +1122,35 @@ def version_histories(ck: Ck, base: str, wd: str) -> None:
                                  {'history': 'from_empty', 'cfg': cfg, 'header': hdr, 'seed': seed, 'feats': sorted(feats),
                                   'size': g.size if g is not None else 3, 'hview': view, 'chosen': chosen, 'diff': diff,
                                   'how': 'harness.c11_util.from_empty(base, dir, cfg, header, seed, feats, size); ./check C11 --replay <this file>'})
+
+
+def retry_histories(ck: Ck, base: str, wd: str) -> None:
+    """Error path of the rejection: a value that does not fit makes save() raise; the caller repairs the value in place and saves the
+    SAME object again.  Whatever the first save left behind, the second must write the world."""
+    rounds = ck.budget(1, 8)
+    for rnd in range(rounds):
+        for i, cfg in enumerate(U.CONFIGS):
+            for view in U.BREAKABLE:
+                res = None
+                for k in range(40):
+                    seed = ck.rng.getrandbits(40)
+                    g = U.Gen(seed, cfg, U.PROP_VERSIONS[(i * 3 + k + rnd) % len(U.PROP_VERSIONS)], {'model_detail', 'sprite_detail', 'water', 'physics'},
+                              3 if rnd == 0 else ck.rng.choice([2, 4, 6]))
+                    res = U.retry_after_reject(base, wd, g, view)
+                    if res is not None:
+                        break
+                if res is None:
+                    continue        # (no value of this view is rejected in this layout: e.g. 40000 clusters fit the chaos layout)
+                ck.count('histories_rejected_save_then_repair_then_save')
+                ck.hist('history_rejected_view', view)
+                ck.seen(('retry', cfg, view, g.seed))
+                for v2, diff in res.items():
+                    ck.violation(f'retry-after-rejected-save:{view}:{v2}',
+                                 f'{view}[0].{U.BREAKABLE[view][0]} = {U.BREAKABLE[view][1]} makes save() raise ({cfg}); the value is repaired in place and the same '
+                                 f'object is saved again; re-read by a fresh object: {diff}',
+                                 {'history': 'retry', 'cfg': cfg, 'prop_ver': g.prop_ver, 'seed': g.seed, 'feats': sorted(g.feats), 'size': g.size,
+                                  'bad_view': view, 'hview': v2, 'diff': diff,
+                                  'how': 'harness.c11_util.retry_after_reject(base, dir, Gen(seed, cfg, prop_ver, feats, size), bad_view); ./check C11 --replay <this file>'})
 
 
 def classify(view: str, diff: str, feats: set[str], g: U.Gen) -> str:
@@ -1477,6 +1506,8 @@ def glue_obligations(glue: dict) -> dict[str, str]:
     for h in range(4, 14):
         obs[f'prop_format_written_without_reading_is_found_again:header-{h}'] = f'pv_never_read_ok_hdr pv_tables {h}%N'
     obs['prop_format_tables_pass'] = 'pv_ok pv_tables'
+    # error path: save() keeps a view in the cache until nothing can raise any more for it (a rejected value must not cost the view)
+    obs['save_keeps_a_view_until_its_writer_succeeded'] = 'commit_ok save_events'
     obs['rebuild_order_runs_appending_writers_first'] = 'order_ok rebuild_order append_edges'
     return obs
 
@@ -1621,6 +1652,7 @@ def run(ck: Ck) -> None:
             guarded(ck, 'output_delay_probe', high_precision_delay_probe, ck, base, wd)
             lap('reject_probes')
             guarded(ck, 'version_histories', version_histories, ck, base, wd)
+            guarded(ck, 'retry_histories', retry_histories, ck, base, wd)
             if built:
                 guarded(ck, 'corr_propver', corr_propver, ck, base, glue)
             lap('version_histories')
@@ -1734,6 +1766,8 @@ def run(ck: Ck) -> None:
             for pref, views in view_of.items():
                 if st.startswith(pref) and (hit_views & set(views) or '!any' in hit_views or '!save' in hit_views or '!read' in hit_views):
                     ck.explain(nm)
+        if nm.startswith('instance:save_keeps_a_view') and any(k.startswith('retry-after-rejected-save') for k in keys):
+            ck.explain(nm)
         if nm.startswith('instance:prop_format_') and (any(k.startswith('from-empty-lump:props') or k.startswith('from-empty-lump:!') or k.startswith('props')
                                                             or k.startswith('never-read-then-assign:props') or k.startswith('never-read-then-assign:!')
                                                             or k.startswith('named-then-read-empty:props') or k.startswith('named-then-read-empty:!')
@@ -1753,6 +1787,10 @@ def replay(data: dict) -> int:
     base = os.path.join(wd, 'base.bsp')
     U.make_base(str(REPO / 'tests' / 'test_vec' / 'rot_main.bsp'), base)
     try:
+        if r.get('history') == 'retry':
+            res = U.retry_after_reject(base, wd, U.Gen(r['seed'], r['cfg'], r['prop_ver'], set(r['feats']), r['size']), r['bad_view'])
+            print('implementation (rejected save, value repaired in place, second save, re-read) differences per view:', res or 'none')
+            return 1 if res and r['hview'] in res else 0
         if r.get('history') in ('from_empty', 'never_read', 'named'):
             res, _g, chosen = U.from_empty(base, wd, r['cfg'], r['header'], r['seed'], set(r['feats']), r['size'], read_first=r['history'] != 'never_read',
                                            named=r.get('named'))
